@@ -14,13 +14,13 @@ from collections import Counter
 
 from hypothesis import strategies as st
 
-from vlib import gen, sched, sut, vtree
+from vlib import gen, ref, sched, sut, vtree
 from vlib.core import Stage, fail
 
 ID = "C15"
 MANIFEST = {
     "category": "exploration",
-    "text": "Schedule exploration by generated-input search with a differential oracle: deep AHBs (up to 40/100 nodes) with >= 3 free-text data elements whose inputs are pairwise different and whose expressions are dense in format constraints x content evaluation results x a schedule of yield counts consumed by the harness's asynchronous format-constraint / requirement-constraint evaluators, hints provider and package resolver. For every free-text element that the run reports, its ValidationResultInContext must equal the result of validate_data_element_freetext on a fresh copy of that element alone (nothing yields; segment status taken from the whole run); the multiset of (format-constraint key, text seen) pairs logged during the whole run must equal the union of the pairs logged by the single runs, i.e. every constraint was evaluated against its own element's input. A drawn subset of the format-constraint methods are plain functions that read the documented context variable themselves; in the element's own run every such evaluation must have seen exactly the element's input. Every visited segment with several free-text elements is also validated through validate_segment under the same schedule, below the status its group received; its rows must equal those of the whole run. A third of the data elements have no discriminator (None) or share one; rows are attributed to elements by position. The same maus object is validated a second time; the rows of its free-text elements must equal those of the first validation.",
+    "text": "Schedule exploration by generated-input search with a differential oracle: deep AHBs (up to 40/100 nodes) with >= 3 free-text data elements whose inputs are pairwise different and whose expressions are dense in format constraints x content evaluation results x a schedule of yield counts consumed by the harness's asynchronous format-constraint / requirement-constraint evaluators, hints provider and package resolver. For every free-text element that the run reports, its ValidationResultInContext must equal the result of validate_data_element_freetext on a fresh copy of that element alone (nothing yields; segment status taken from the whole run); the multiset of (format-constraint key, text seen) pairs logged during the whole run must equal the union of the pairs logged by the single runs, i.e. every constraint was evaluated against its own element's input. A drawn subset of the format-constraint methods are plain functions that read the documented context variable themselves; in the element's own run every such evaluation must have seen exactly the element's input. Every visited segment with several free-text elements is also validated through validate_segment under the same schedule, below the status its group received; its rows must equal those of the whole run. A third of the data elements have no discriminator (None) or share one; rows are attributed to elements by position. The same maus object is validated a second time; the rows of its free-text elements must equal those of the first validation. A seventh of the inputs are padded with blanks, line ends, NBSP or control characters or consist of nothing else. Independent oracle: for every reported free-text element whose deciding part uses the harness's constraints only, format_validation_fulfilled must equal the reference reading of that part (first fulfilled part, the attached constraints that take part, each judged by the pure constraint function on this element's input).",
     "note": "Trusted: the schedule harness (vlib/sched.py); the format-constraint oracle function is pure in (key, text) and echoes the text, so a foreign input changes verdict or message. Interleavings are those of one asyncio event loop. Process configuration by shard (vlib/sut.py; recorded in replay files): plain / parse caches preheated beyond their size / warnings attributed to ahbicht raised as errors / logging fully enabled with every record rendered; one event loop per process or a new one per call; five process time zones; the hash seed is the shard number; namesakes of ahbicht's marshmallow schema classes are registered.",
     "technique": "property-based schedule exploration with a differential oracle (element inside the concurrent run vs the element alone) and a log invariant",
 }
@@ -122,6 +122,20 @@ def check(case):
             if strangers:
                 fail("own-input", f"element {element['d']} with input {element['inp']!r} and expression {element['expr']['s']!r}, "
                      f"validated on its own: its format constraint methods saw {strangers} (key, text) instead of its input")  # fmt: skip
+            # what the constraints say about the own input, read off the written expression: the part that decides
+            # (C09), the constraints of it that take part (C07), each judged on this element's input (C08)
+            parts = [p[:2] for p in element["expr"]["parts"]]
+            decisive = parts[ref.select_part(parts, cer["rc"])][1]
+            if decisive is not None and all(key in fc_function.keys for key in ref.keys_of(decisive, "fc")):
+                truth = {key: fc_function(key, element["inp"])[0] for key in ref.keys_of(decisive, "fc")}
+                expected = ref.fc_direct(decisive, cer["rc"], truth)
+                expected = True if expected is None else expected
+                reported = rows[element["d"]].validation_result.format_validation_fulfilled
+                if reported is not expected:
+                    fail("format-outcome", f"element {element['d']} with input {element['inp']!r} and expression {element['expr']['s']!r} "
+                         f"under rc={cer['rc']}: format_validation_fulfilled = {reported!r}, but its format constraints, judged on its "
+                         f"own input ({truth}), give {expected!r}")  # fmt: skip
+                info["judged"] = info.get("judged", 0) + 1
             if alone.value != rows[element["d"]]:
                 fail("element-differs", f"element {element['d']} with input {element['inp']!r} and expression "
                      f"{element['expr']['s']!r}: inside the run {rows[element['d']].validation_result}, alone {alone.value.validation_result}")  # fmt: skip
